@@ -59,6 +59,11 @@ type DeviceMfgInfo struct {
 // support a possibly constrained device needs.
 func SignDeviceCertificate(deviceCAKey crypto.Signer, deviceCAChain []*x509.Certificate) func(*DeviceMfgInfo) ([]*x509.Certificate, error) {
 	return func(info *DeviceMfgInfo) ([]*x509.Certificate, error) {
+		// DI.AppStart may carry null instead of the device info
+		if info == nil {
+			return nil, fmt.Errorf("device manufacturing info with a CSR is required")
+		}
+
 		// Validate device info
 		csr := x509.CertificateRequest(info.CertInfo)
 		if err := csr.CheckSignature(); err != nil {
